@@ -191,6 +191,33 @@ def main():
             got = pyeval(e._get_value)
             check(rac, f"{name} {x0} {y0} {k0}", name, got, ("ok", want), hdr + f"# scenario {name}\n", "CallRef._get_value")
             rac.case((name, x0, y0, k0), sample=name)
+    # writing through item / attribute references: the location written is the one _get_value reads
+    for keysrc, container, readback in [("r['lst'][r['idx']]", "lst", lambda d: d["lst"][1]), ("r['lst'][r['idx'] + 1]", "lst", lambda d: d["lst"][2]),
+                                       ("r['lst'][-r['idx']]", "lst", lambda d: d["lst"][-1]), ("r['tbl'][r['name']]", "tbl", lambda d: d["tbl"]["q"]),
+                                       ("r['tbl'][r['name'] + 'x']", "tbl", lambda d: d["tbl"]["qx"]), ("r['lst'][2]", "lst", lambda d: d["lst"][2]),
+                                       ("r['obj'].q", "obj", lambda d: d["obj"].q), ("r['tbl']['q']", "tbl", lambda d: d["tbl"]["q"])]:
+        for via in ("assign", "_set_value"):
+            d = dict(idx=1, name="q", lst=[5, 6, 7], tbl={"q": 1, "qx": 2}, obj=type("O", (), {})())
+            d["obj"].q = 42
+            m = xdeps.Manager()
+            r = m.ref(d, "d")
+            before = dict(lst=list(d["lst"]), tbl=dict(d["tbl"]), q=d["obj"].q)
+            scr = hdr + "d = dict(idx=1, name='q', lst=[5, 6, 7], tbl={'q': 1, 'qx': 2}, obj=type('O', (), {})()); d['obj'].q = 42\nm = xdeps.Manager(); r = m.ref(d, 'd')\n" + \
+                (f"{keysrc} = -77\n" if via == "assign" else f"{keysrc}._set_value(-77)\n") + f"print(d['lst'], d['tbl'], d['obj'].q)\nassert ({keysrc})._get_value() == -77\n" \
+                "assert sorted(map(str, d['tbl'])) == ['q', 'qx'] and len(d['lst']) == 3, 'stored under a wrong key'\n"
+            try:
+                if via == "assign":
+                    exec(f"{keysrc} = -77", dict(r=r))
+                else:
+                    eval(keysrc, dict(r=r))._set_value(-77)
+                ok = readback(d) == -77 and sorted(map(str, d["tbl"])) == ["q", "qx"] and len(d["lst"]) == 3
+                changed = sum(1 for a_, b_ in zip(d["lst"], before["lst"]) if a_ != b_) + sum(1 for k_ in before["tbl"] if d["tbl"][k_] != before["tbl"][k_]) + (d["obj"].q != before["q"])
+                ok = ok and changed == 1
+            except Exception as ex:      # noqa
+                ok = False
+            rac.case(("write", keysrc, via), sample=dict(write=keysrc, via=via))
+            if not ok:
+                rac.fail(f"write {keysrc} {via}", f"writing -77 through {keysrc} ({via}) left lst={d['lst']}, tbl={d['tbl']}, obj.q={d['obj'].q}", scr, "ItemRef._set_value")
     rac.section("inplace", "all 13 in-place operators on a plain location (old value OP operand) and on an "
                 "expression-defined location (old expression OP operand), then the source changes", "13 operators x value pairs")
     for iop in INPL:
